@@ -1,5 +1,5 @@
 From GV Require Import Common.Outcome Base.Grammar LR.Automaton LR.Validator LR.Spec.
-From GV Require Import C08.Model C08.Spec C08.Proofs.
+From GV Require Import C08.Model C08.Spec C08.Proofs C08.DetModel C08.DetSpec C08.DetProofs.
 
 (* today's code (mirror: run_actions / run_actions_rec) *)
 Theorem C08_action_log_is_postorder : action_log_is_postorder_stmt.
@@ -54,3 +54,22 @@ Print Assumptions C08_replay_span_is_yield_hull.
 Theorem C08_fixed_changes_only_spans : fixed_changes_only_spans_stmt.
 Proof. exact fixed_changes_only_spans. Qed.
 Print Assumptions C08_fixed_changes_only_spans.
+
+(* both modes with ONE recoverer function (input -> applied repair sequence): /repo ca69cd1 *)
+Theorem C08_actions_equal_generic_same_recoverer : actions_equal_generic_same_recoverer_stmt.
+Proof. exact actions_equal_generic_same_recoverer. Qed.
+Print Assumptions C08_actions_equal_generic_same_recoverer.
+
+Theorem C08_actions_tree_equals_generic_recovery : actions_tree_equals_generic_recovery_stmt.
+Proof. exact actions_tree_equals_generic_recovery. Qed.
+Print Assumptions C08_actions_tree_equals_generic_recovery.
+
+Theorem C08_recoverer_run_is_oracle_run : recoverer_run_is_oracle_run_stmt.
+Proof. exact recoverer_run_is_oracle_run. Qed.
+Print Assumptions C08_recoverer_run_is_oracle_run.
+
+(* … and the pinned defect: the recoverer answering differently for the two parses *)
+Theorem C08_actions_differ_generic_if_recoverer_differs_refuted :
+  actions_differ_generic_if_recoverer_differs_refuted_stmt.
+Proof. exact actions_differ_generic_if_recoverer_differs_refuted. Qed.
+Print Assumptions C08_actions_differ_generic_if_recoverer_differs_refuted.
